@@ -65,7 +65,7 @@ def _job(job) -> List[Dict[str, Any]]:
     def setup(w):
         def call_args(I, fv, args, kwargs, node):
             fi = fv.fi
-            if fi is None or fi.module.name != common_mod or "_compute" not in I.cur_func():
+            if fi is None or fi.module.name != common_mod or not any(f.label.endswith("._compute") or "._compute.<locals>" in f.label for f in I.stack):
                 return None
             new = list(args)
             changed = False
